@@ -33,6 +33,9 @@ def jobs_for(ck, exe, evict):
             jobs.append(dict(exe=exe, args=["--mode", "random", "--ops", nops // 2, "--limit", lim, "--shared", "--shm", [512 << 10, 1 << 20, 3 << 20][lim % 3], "--seed", sa.subseed(ck, 60 + lim)], label="rnd-shared-l%d" % lim, timeout=7200))
         for i in range(4):
             jobs.append(dict(exe=exe, args=["--mode", "random", "--ops", nops // 2, "--shared", "--pressure", "--limit", [0, 0, 6, 50][i], "--shm", [524288, 1 << 20, 1 << 20, 2 << 20][i], "--seed", sa.subseed(ck, 80 + i)], label="pressure-%d" % i, timeout=7200))
+    if not evict:
+        # limit "large": index tables that take a good part of a small shared segment
+        jobs.append(dict(exe=exe, args=["--mode", "bigtable", "--seed", sa.subseed(ck, 95)], label="bigtable", timeout=7200))
     return jobs
 
 
@@ -124,4 +127,4 @@ def run(ck):
               "trigger recorders; after every operation the fetch result, stats() and a full dump taken through the guarded hook (index invariants included) are compared with an executable model. "
               "non-trivial = distinct model states reached" % ((5, 4) if ck.tier == "thorough" else (4, 3)),
               "ops", "states", min_evals=100000,
-              required_nonzero=("hits", "misses_absent", "misses_expired", "rise_killed", "dumps", "frames_built", "sequences", "histories", "page_expectations_checked", "page_scenarios_frame-trigger", "page_scenarios_nothing"))
+              required_nonzero=("hits", "misses_absent", "misses_expired", "rise_killed", "dumps", "frames_built", "sequences", "histories", "page_expectations_checked", "page_scenarios_frame-trigger", "page_scenarios_nothing", "bigtable_rounds"))
